@@ -18,7 +18,7 @@ def describe(tier):
         "rule": "for every C10 input: bytes written by IndxIO.save == bytes of an independent encoder written from the class docstring; the "
         "independent decoder recovers the input from the saved bytes; IndxIO.load recovers the input from independently encoded bytes for every "
         "index word size {1,2,4,8} >= needed and every row-id word size {1,2,4,8} the values permit (and both header conventions for the "
-        "dimension byte of an entry-less file). Narrow row-id words: independently encoded files with 1- and 2-byte row-id words whose total row-id count exceeds 255 / 65535 (%r). Size field: sparse stand-in arrays (len/dtype/tofile=seek) with row-id totals %r and %r: the 8-byte "
+        "dimension byte of an entry-less file). Saving with a 1-/2-/8-byte row-id dtype (entry lengths around 255/256 and 65535/65536): the library may refuse, but a file it writes must decode to the input. Narrow row-id words: independently encoded files with 1- and 2-byte row-id words whose total row-id count exceeds 255 / 65535 (%r). Size field: sparse stand-in arrays (len/dtype/tofile=seek) with row-id totals %r and %r: the 8-byte "
         "size word must equal final file position - 16 and save must not raise. Non-trivial as in C10, or an alternative word size was loaded." % (NARROW, BIG_SINGLE, BIG_MULTI),
         "bounds": {"row_id_totals": [str(x) for x in BIG_SINGLE] + [str(sum(x)) for x in BIG_MULTI]},
         "exhaustive": True,
@@ -29,8 +29,38 @@ def describe(tier):
 NARROW = [(1, [200, 100]), (1, [255, 1]), (1, [128, 128]), (1, [100, 100, 100]), (1, [0, 255, 3]), (2, [40000, 30000]), (2, [65535, 1]), (2, [32768, 32768, 5])]
 
 
+NARROW_SAVE = [(1, [3, 0, 5]), (1, [255]), (1, [256]), (1, [255, 255]), (1, [256, 1]), (2, [65535]), (2, [65536]), (2, [300, 65536, 2]), (8, [3, 0, 5])]
+
+
 def blocks(tier):
-    return indx.family_blocks(tier) + [("bigsize", {"tier": tier})] + [("narrow", {"tier": tier, "i": i}) for i in range(len(NARROW))]
+    return indx.family_blocks(tier) + [("bigsize", {"tier": tier})] + [("narrow", {"tier": tier, "i": i}) for i in range(len(NARROW))] + [("narrow-save", {"tier": tier, "i": i}) for i in range(len(NARROW_SAVE))]
+
+
+def check_narrow_save(rw, lengths, acc):
+    """IndxIO.save with a 1-, 2- or 8-byte row-id dtype. The library may refuse (an entry longer than the word can count), but a
+    file it does write must be the documented layout of the input."""
+    from catii.indxio import IndxIO
+
+    dt = {1: numpy.uint8, 2: numpy.uint16, 8: numpy.uint64}[rw]
+    keys = [(i + 1, 0) for i in range(len(lengths))]
+    arrays = [[j % (1 << (8 * min(rw, 4))) for j in range(n)] for n in lengths]
+    case = {"save_rowid_word": rw, "lengths": lengths}
+    entries = {k: numpy.array(a, dtype=dt) for k, a in zip(keys, arrays)}
+    path = os.path.join(indx.scratch_dir(), "ns-%d.indx" % os.getpid())
+    try:
+        with open(path, "wb") as f:
+            IndxIO.save(f, entries, 0, numpy.dtype(dt))
+    except Exception:
+        return "refused"
+    blob = open(path, "rb").read()
+    try:
+        dk, da, dc, iw, rw2, size = indx.decode(blob)
+    except Exception as e:  # noqa
+        acc.violation("bytes:undecodable", case, "save returned normally but the file is not the documented layout: %r" % (e,))
+        return "written"
+    if (dk, da, dc, rw2) != (keys, arrays, 0, rw):
+        acc.violation("bytes:decode-differs", case, "save returned normally but the file decodes to lengths %r (row-id word %d)" % ([len(a) for a in da], rw2))
+    return "written"
 
 
 def check_narrow(rw, lengths, acc):
@@ -140,6 +170,11 @@ def check_big(lengths, acc):
 
 
 def run_block(family, p, acc):
+    if family == "narrow-save":
+        rw, lengths = NARROW_SAVE[p["i"]]
+        r = check_narrow_save(rw, lengths, acc)
+        acc.case(("narrow-save", rw, tuple(lengths)), nontrivial=True, outcome=("narrow-save", r), sample={"save_with_rowid_word": rw, "row_id_lengths": lengths, "library": r})
+        return
     if family == "narrow":
         rw, lengths = NARROW[p["i"]]
         check_narrow(rw, lengths, acc)
@@ -166,7 +201,9 @@ def replay(case, site=None):
     from ..core import Acc
 
     acc = Acc(ID, [], stop_at_first=False)
-    if "rowid_word" in case and "lengths" in case:
+    if "save_rowid_word" in case:
+        check_narrow_save(case["save_rowid_word"], case["lengths"], acc)
+    elif "rowid_word" in case and "lengths" in case:
         check_narrow(case["rowid_word"], case["lengths"], acc)
     elif "lengths" in case:
         check_big([int(x) for x in case["lengths"]], acc)
